@@ -18,7 +18,7 @@ META = {
                    "get_merkle_tree(...).hash() agrees; for every n and every position i the proof hashes to the root and "
                    "contains leaf i; calc_merkle_root_hash feeds the transaction ids in order.",
     "technique": "CrossHair symbolic execution of merkletree.py with an injective hash constructor",
-    "bounds": "list lengths <= 7 (thorough) / <= 5 (quick); leaves are 2-byte atoms with one symbolic byte",
+    "bounds": "list lengths <= 9 (thorough) / <= 5 (quick); leaves are 2-byte atoms with one symbolic byte",
     "outside": "lists longer than the bound; leaves that equal an interior node value (excluded by preimage resistance, DESIGN 8)",
     "stubs": ["hash oracle TI for merkletree.sha256d"],
     "assumptions": ["sha256d is collision-free", "a leaf never equals an interior node value"],
@@ -68,16 +68,17 @@ def inject(n: int, m: int, twin: bool = False, real: bool = False):
     mt, H, leaf = _env(real)
 
     def check_inject(a0: int, a1: int, a2: int, a3: int, a4: int, a5: int, a6: int,
-                     b0: int, b1: int, b2: int, b3: int, b4: int, b5: int, b6: int) -> bool:
+                     b0: int, b1: int, b2: int, b3: int, b4: int, b5: int, b6: int,
+                     a7: int = 0, a8: int = 0, b7: int = 0, b8: int = 0) -> bool:
         """
         post: _
         """
-        av = [a0, a1, a2, a3, a4, a5, a6][:n]
-        bv = [b0, b1, b2, b3, b4, b5, b6][:m]
+        av = [a0, a1, a2, a3, a4, a5, a6, a7, a8][:n]
+        bv = [b0, b1, b2, b3, b4, b5, b6, b7, b8][:m]
         if not (_in_range(av) and _in_range(bv)):
             return True
         # unused arguments are pinned so that they do not multiply models
-        for u in [a0, a1, a2, a3, a4, a5, a6][n:] + [b0, b1, b2, b3, b4, b5, b6][m:]:
+        for u in [a0, a1, a2, a3, a4, a5, a6, a7, a8][n:] + [b0, b1, b2, b3, b4, b5, b6, b7, b8][m:]:
             if u != 0:
                 return True
         a = [leaf(x) for x in av]
@@ -90,8 +91,8 @@ def inject(n: int, m: int, twin: bool = False, real: bool = False):
             return av == bv
         return True
 
-    w = {("a%d" % i): (i + 1 if i < n else 0) for i in range(7)}
-    w.update({("b%d" % i): (i + 1 if i < m else 0) for i in range(7)})
+    w = {("a%d" % i): (i + 1 if i < n else 0) for i in range(9)}
+    w.update({("b%d" % i): (i + 1 if i < m else 0) for i in range(9)})
     return check_inject, w
 
 
@@ -108,14 +109,15 @@ def construction(n: int, twin: bool = False, real: bool = False):
             out += _leaves(c)
         return out
 
-    def check_construction(a0: int, a1: int, a2: int, a3: int, a4: int, a5: int, a6: int, i: int, j: int = 0) -> bool:
+    def check_construction(a0: int, a1: int, a2: int, a3: int, a4: int, a5: int, a6: int, i: int, j: int = 0,
+                           a7: int = 0, a8: int = 0) -> bool:
         """
         post: _
         """
-        av = [a0, a1, a2, a3, a4, a5, a6][:n]
+        av = [a0, a1, a2, a3, a4, a5, a6, a7, a8][:n]
         if not _in_range(av) or not (0 <= i < n) or not (0 <= j < n):
             return True
-        for u in [a0, a1, a2, a3, a4, a5, a6][n:]:
+        for u in [a0, a1, a2, a3, a4, a5, a6, a7, a8][n:]:
             if u != 0:
                 return True
         a = [leaf(x) for x in av]
@@ -156,14 +158,14 @@ def construction(n: int, twin: bool = False, real: bool = False):
                 return False
         return calc_merkle_root_hash(txs) == root
 
-    w = {("a%d" % j): (j + 1 if j < n else 0) for j in range(7)}
+    w = {("a%d" % j): (j + 1 if j < n else 0) for j in range(9)}
     w["i"] = n - 1
     w["j"] = 0
     return check_construction, w
 
 
 def obligations(tier: str, known: List[str]) -> List[Ob]:
-    N = 7 if tier == "thorough" else 5
+    N = 9 if tier == "thorough" else 5
     obs: List[Ob] = []
     c1 = "commitment changes whenever the ordered id list changes (substitute/reorder/remove/append/duplicate)"
     c2 = "for every list and position the proof contains the entry and reproduces the commitment"
